@@ -189,30 +189,25 @@ struct Engine {
 	}
 	static bool named(int s) { return !D(s).headless; }
 	static bool utilityOn() { return VT_UTILITY; }
+	// anonymous heads answer select() with INVALID_PRONG and utility 0: select / randomize through headless regions are
+	// outside the documented preconditions, so programs with headless composite-style regions do not use those kinds
+	static bool hasHeadlessCompo() { for (int s = 0; s < N; ++s) if (isCompo(s) && D(s).headless) return true; return false; }
+	static bool kindAllowed(int k) { if (k == T_UTILIZE || k == T_RANDOMIZE) { if (!utilityOn()) return false; } if (hasHeadlessCompo() && (k == T_SELECT || k == T_RANDOMIZE)) return false; return true; }
 
 	// ---- menus ----------------------------------------------------------------------------------
 	static void buildMenus() {
 		Globals& g = G();
 		const unsigned cls = g.opt.classes;
-		auto kinds = [&](bool reducedOnly) {
-			std::vector<int> k = {T_CHANGE, T_RESTART, T_RESUME};
-			if (!reducedOnly) {
-				k.push_back(T_SELECT);
-				if (utilityOn()) { k.push_back(T_UTILIZE); k.push_back(T_RANDOMIZE); }
-				k.push_back(T_SCHEDULE);
-			}
-			return k;
-		};
 		auto addReqs = [&](std::vector<Action>& m, uint8_t type, bool reducedOnly) {
-			for (int k : kinds(reducedOnly))
+			if (!reducedOnly) return;
+			for (int k : {T_CHANGE, T_RESTART, T_RESUME})
 				for (int s = 0; s < N; ++s) m.push_back(Action{type, (int16_t) k, (int16_t) s, 0, 0});
 		};
 		auto addRest = [&](std::vector<Action>& m, uint8_t type) {
-			std::vector<int> k = {T_SELECT};
-			if (utilityOn()) { k.push_back(T_UTILIZE); k.push_back(T_RANDOMIZE); }
-			k.push_back(T_SCHEDULE);
-			for (int kk : k)
-				for (int s = 0; s < N; ++s) m.push_back(Action{type, (int16_t) kk, (int16_t) s, 0, 0});
+			for (int kk : {T_SELECT, T_UTILIZE, T_RANDOMIZE, T_SCHEDULE}) {
+				if (!kindAllowed(kk)) continue;
+				for (int s = (kk == T_SCHEDULE ? 1 : 0); s < N; ++s) m.push_back(Action{type, (int16_t) kk, (int16_t) s, 0, 0});
+			}
 		};
 		auto planEdits = [&](std::vector<Action>& m) {
 #if VT_PLANS
